@@ -77,6 +77,9 @@ type Contract struct {
 	NilRecvOK          bool
 	SpecOnly           bool
 	Unverified         []string // interface contract: implementing types whose refinement is assumed, not proved
+	IndexFn     bool            // spec-level slice indexing through an uninterpreted index function (E-matching aid)
+	Hide        map[string]bool // spec functions kept opaque (uninterpreted) in this function's VC
+	Using       []string // axioms / proved lemmas assumed in this function's VC
 	Claims      map[string]bool // if set: only these obligation kinds are generated (the others are listed as not claimed)
 	AssumeCalleeFrames bool     // havoc callees are assumed not to write caller-visible memory (listed in the evidence)
 	CheckAlias         bool     // emit alias obligations on append into non-fresh spare capacity (C09/C10)
@@ -109,13 +112,14 @@ type SpecSet struct {
 	Fns       map[string]*SpecFn
 	Lemmas    []*Lemma
 	Axioms    []*Lemma
+	Ghosts    map[string]*SpecFn // uninterpreted specification functions (defined by axioms)
 	Aliases   map[string]string // spec name -> function key (pure closures referred to by name)
 	Invs      []*Lemma // package-level invariants over globals (established by init, never written elsewhere)
 	Order     []string
 }
 
 func newSpecSet() *SpecSet {
-	return &SpecSet{Contracts: map[string]*Contract{}, Fns: map[string]*SpecFn{}, Aliases: map[string]string{}}
+	return &SpecSet{Contracts: map[string]*Contract{}, Fns: map[string]*SpecFn{}, Aliases: map[string]string{}, Ghosts: map[string]*SpecFn{}}
 }
 
 // parseSpecFile parses one contract file belonging to package pkgPath.
@@ -223,7 +227,33 @@ func (ss *SpecSet) parseSpec(text, path, pkgPath string) error {
 			}
 			c := &Clause{Text: body, Expr: e, Line: ln + 1, Note: note}
 			switch f[1] {
-			case "alias":
+			case "ghost":
+			// ghost name(a T, b U) R   -- uninterpreted; its meaning is given by axioms
+			fn, err := parseSpecFn(rest + " = 0")
+			if err != nil {
+				return fail(err)
+			}
+			fn.Pkg = pkgPath
+			ss.Ghosts[fn.Name] = fn
+			cur = nil
+		case "index-function":
+			cur.IndexFn = true
+		case "hide":
+			if cur == nil {
+				return fail(fmt.Errorf("hide outside func"))
+			}
+			if cur.Hide == nil {
+				cur.Hide = map[string]bool{}
+			}
+			for _, h := range strings.Fields(rest) {
+				cur.Hide[h] = true
+			}
+		case "using":
+			if cur == nil {
+				return fail(fmt.Errorf("using outside func"))
+			}
+			cur.Using = append(cur.Using, strings.Fields(rest)...)
+		case "alias":
 			// alias name = FuncKey
 			f := strings.SplitN(rest, "=", 2)
 			if len(f) != 2 {
@@ -278,6 +308,32 @@ func (ss *SpecSet) parseSpec(text, path, pkgPath string) error {
 			fn.Pkg = pkgPath
 			ss.Fns[fn.Name] = fn
 			cur = nil
+		case "ghost":
+			// ghost name(a T, b U) R   -- uninterpreted; its meaning is given by axioms
+			fn, err := parseSpecFn(rest + " = 0")
+			if err != nil {
+				return fail(err)
+			}
+			fn.Pkg = pkgPath
+			ss.Ghosts[fn.Name] = fn
+			cur = nil
+		case "index-function":
+			cur.IndexFn = true
+		case "hide":
+			if cur == nil {
+				return fail(fmt.Errorf("hide outside func"))
+			}
+			if cur.Hide == nil {
+				cur.Hide = map[string]bool{}
+			}
+			for _, h := range strings.Fields(rest) {
+				cur.Hide[h] = true
+			}
+		case "using":
+			if cur == nil {
+				return fail(fmt.Errorf("using outside func"))
+			}
+			cur.Using = append(cur.Using, strings.Fields(rest)...)
 		case "alias":
 			// alias name = FuncKey
 			f := strings.SplitN(rest, "=", 2)
